@@ -35,6 +35,9 @@ object (R9-ctor-derived-state); the selector's own packet stored; pack cutting /
 value to a recomputed size.
 Round 7: the marker strategies of a kind split over several strategies are each judged under the
 test that selects them; a delimiter left out of the value is remembered for pack (C06-e').
+Round 8: a strategy built as a closure at compile time must not capture the value of
+self.field_name (Ref renames the fields it hands out); abstract intermediate bases are judged
+through their subclasses.
 """
 import ast
 
